@@ -378,7 +378,11 @@ pub fn check_stream(cfg: &StreamCfg, items: &[Item], diag: &Diag, out: &mut Outc
                             }
                         }
                     }
-                    RObs::Val(x) => fail = Some(("value", format!("{:?} returned {} for a codeword of {}", rop, x, it.v))),
+                    RObs::Val(x) => {
+                        // a wrong value with a wrong number of consumed bits is also a length matter (C06)
+                        let moved = matches!(r2.bit_pos(), Some(Ok(p)) if p as usize != t);
+                        fail = Some((if moved { "value+position" } else { "value" }, format!("{:?} returned {} for a codeword of {}{}", rop, x, it.v, if moved { " and did not stop at its end" } else { "" })));
+                    }
                     RObs::Panic(m) => fail = Some(("panic", format!("{:?} panicked: {}", rop, m))),
                     other => fail = Some(("error", format!("{:?} -> {:?}", rop, other))),
                 }
